@@ -146,6 +146,7 @@ def run_shard(mod, sc, tier, shard, nshards, verif_seed, max_examples_override=N
                     stats.excluded[e["id"]] = stats.excluded.get(e["id"], 0) + 1
                 return
         try:
+            os.chdir(HOME_CWD)  # a check may have left the process in a case directory (relative-path cases)
             info = sc.check(case, ctx)
         except Violation as v:
             if v.sig in muted:
@@ -235,6 +236,9 @@ def run_shard(mod, sc, tier, shard, nshards, verif_seed, max_examples_override=N
         "wall_s": round(time.time() - t0, 2),
         "exhaustive": bool(sc.exhaustive and sc.enumerate is not None and not stats.budget_hit),
     }
+
+
+HOME_CWD = os.getcwd()
 
 
 def replay_case(mod, subname, case, tier="quick"):
